@@ -38,6 +38,7 @@ def drive(draw, h, cfg):
     names = list(h.prog_rel['funcs'])
     univ = cfg['universe']
     h.c02_nt = 0
+    h.nt_keys = []
     # ---- history prefix: no cache / valid cache / tampered or deleted outputs / swaps
     shape = draw(st.sampled_from(['none', 'cache', 'cache', 'cache+ext', 'cache+ext', 'cache+ext', 'long']))
     if shape != 'none':
@@ -79,6 +80,7 @@ def drive(draw, h, cfg):
         h.stats['c02_crash_runs'] += 1
         if h.last.get('has_cache') and (h.rctx.written or h.rctx.hits):
             h.c02_nt += 1
+            h.nt_keys.append(['crash', len(h.steps), k])
             h.stats['c02_crash_after_work_on_cache'] += 1
         if h.dead:
             break
@@ -91,6 +93,7 @@ def drive(draw, h, cfg):
             h.stats['c02_cache_write_failures'] += 1
             if h.last.get('has_cache'):
                 h.c02_nt += 1
+                h.nt_keys.append(['cachewrite', len(h.steps)])
         if not h.dead:
             h.failures.extend(h.apply(['build', vers, None, None, 'cmp_twin']))
 
